@@ -140,6 +140,37 @@ func extraPrograms() []*Prog {
 		add(term.Op(eq, B, term.Op(eq, B, n(), n()), F.Clone()))
 		add(term.Op(eq, B, n(), T.Clone(), T.Clone()))
 	}
+	// nested ifs (depth 2 and 3, every branch position) whose taken branch may
+	// yield the value that decides the enclosing and/or, followed by operands
+	// that fail: larger than the enumerated bound, so built explicitly
+	var nests func(depth int, decide bool) []*term.Term
+	nests = func(depth int, decide bool) []*term.Term {
+		D := term.Const(decide)
+		if depth == 0 {
+			return []*term.Term{D, b()}
+		}
+		var res []*term.Term
+		for _, inner := range nests(depth-1, decide) {
+			res = append(res, term.If(b(), inner.Clone(), b()), term.If(b(), b(), inner.Clone()))
+		}
+		return res
+	}
+	for _, opn := range []string{"and", "or"} {
+		decide := opn == "or"
+		for depth := 2; depth <= 3; depth++ {
+			for _, nst := range nests(depth, decide) {
+				if nst.Size() > 11 {
+					continue
+				}
+				add(term.Op(opn, B, nst.Clone(), term.Op("boom", B)))
+				add(term.Op(opn, B, b(), nst.Clone(), term.Op("=", B, term.Op("/", I, term.Const(1), term.Const(0)), term.Const(1))))
+			}
+		}
+		// and inside the other operator / under not
+		for _, nst := range nests(2, decide)[:4] {
+			add(term.Op("not", B, term.Op(opn, B, nst.Clone(), term.Op("boom", B))))
+		}
+	}
 	for _, ne := range []string{"!=", "ne"} {
 		add(term.Op(ne, B, n(), F.Clone()))
 		add(term.Op(ne, B, F.Clone(), n()))
